@@ -56,6 +56,7 @@ func TestC19(t *testing.T) {
 		nops := 5 + rng.IntN(36)
 		ok := true
 		clones := 0
+		var scratch []byte
 		for k := 0; k < nops && ok; k++ {
 			j := rng.IntN(len(fam))
 			m := fam[j]
@@ -93,13 +94,34 @@ func TestC19(t *testing.T) {
 				if nl == 0 || rng.IntN(3) == 0 {
 					nm.HasID, nm.ID = true, "uid"+strconv.Itoa(k)
 				}
-				if err := m.msg.UnmarshalText([]byte(nm.Encode())); err != nil {
+				// the text comes in through one scratch buffer per family, reused for every such call
+				// (encoding.TextUnmarshaler: the callee copies what it keeps)
+				scratch = append(scratch[:0], nm.Encode()...)
+				if err := m.msg.UnmarshalText(scratch); err != nil {
 					r.Violation(key, []string{"unmarshal_failed"}, map[string]any{"ops": ops, "wire": nm.Encode()}, "C19: UnmarshalText of a valid encoding failed: %v", err)
 					ok = false
 					break
 				}
 				*m.model = *nm
 				ops = append(ops, fmt.Sprintf("m%d.UnmarshalText(%s)", j, fw.Q(nm.Encode())))
+			case x == 9 && rng.IntN(2) == 0:
+				// a single field set through its TextUnmarshaler from the same scratch buffer
+				v := "f" + strconv.Itoa(k)
+				scratch = append(scratch[:0], v...)
+				var err error
+				if rng.IntN(2) == 0 {
+					err = m.msg.ID.UnmarshalText(scratch)
+					m.model.HasID, m.model.ID = true, v
+					ops = append(ops, fmt.Sprintf("m%d.ID.UnmarshalText(%s)", j, v))
+				} else {
+					err = m.msg.Type.UnmarshalText(scratch)
+					m.model.HasType, m.model.Type = true, v
+					ops = append(ops, fmt.Sprintf("m%d.Type.UnmarshalText(%s)", j, v))
+				}
+				if err != nil {
+					r.Violation(key, []string{"unmarshal_failed"}, map[string]any{"ops": ops}, "C19: field UnmarshalText(%q) failed: %v", v, err)
+					ok = false
+				}
 			case x == 9:
 				d := time.Duration(1+rng.IntN(5000)) * time.Millisecond
 				m.msg.Retry = d
@@ -186,6 +208,15 @@ func TestC19(t *testing.T) {
 			vr, _ := sse.NewValidReplayer(ttl, auto)
 			vr.Now = func() time.Time { return now }
 			rp = vr
+		}
+		// a third of the automatic-ID histories start late in the replayer's life: the counter is
+		// moved to where it stands after that many publications
+		var idStart uint64
+		if auto && rng.IntN(3) == 0 {
+			if st := autoIDStarts[rng.IntN(len(autoIDStarts))]; mon.SetAutoIDCounter(rp, st) {
+				idStart = st
+				r.Count("histories_with_moved_id_counter", 1)
+			}
 		}
 		npool := 1 + rng.IntN(4)
 		pool := make([]*builtMsg, npool)
@@ -281,8 +312,8 @@ func TestC19(t *testing.T) {
 		}
 		if auto && !bad {
 			for k := range ids {
-				if ids[k] != strconv.Itoa(k) {
-					r.Violation(key, []string{"auto_ids_not_consecutive"}, map[string]any{"kind": kind, "history": hist, "ids": ids}, "C19: %d publications got IDs %v, want 0,1,2,...", len(ids), ids)
+				if ids[k] != strconv.FormatUint(idStart+uint64(k), 10) {
+					r.Violation(key, []string{"auto_ids_not_consecutive"}, map[string]any{"kind": kind, "history": hist, "ids": ids, "publications_before": idStart}, "C19: publications number %d.. got IDs %v, want %d,%d,... (earlier publications already carry the smaller ones)", idStart+1, ids, idStart, idStart+1)
 					break
 				}
 			}
